@@ -25,7 +25,7 @@ def lemmas_for(prop, tier):
 
 # --------------------------------------------------------------------------------------------
 # renetcode: replay window  (C04, C07)
-RP = dict(crate="renetcode", file="replay_protection.rs")
+RP = dict(crate="renetcode", file="replay_protection.rs", variant={"fs": 512})
 L("rp_total", props=["C04", "C07"], functions="ReplayProtection::{already_received, advance_sequence}",
   claim="both operations return normally for every u64 sequence and every window contents", bound="none (all 2^64 sequences, all window contents)", **RP)
 L("rp_once", props=["C04"], functions="ReplayProtection::{already_received, advance_sequence}", timeout=600,
@@ -64,7 +64,7 @@ L("enc_witness", props=["C13", "C16"], expect="fail", functions="-", claim="vacu
 
 # --------------------------------------------------------------------------------------------
 # renet: slice constructor (C03, C06)
-SC = dict(crate="renet", file="channel/slice_constructor.rs", variant={"bytes": "vec", "cap": 2, "qcap": 2})
+SC = dict(crate="renet", file="channel/slice_constructor.rs", variant={"bytes": "vec", "cap": 2, "qcap": 2, "fs": 128})
 for nm in ("n1_l1", "n2_l1", "n2_l1200", "n2_l1201", "n3_l1199", "n3_l1200", "n2_l0"):
     L("sc_hostile_" + nm, props=["C06"], functions="SliceConstructor::process_slice",
       claim="any slice index (any usize) and any received-flag state: returns normally, out-of-range index never accepted",
@@ -88,7 +88,7 @@ for nm, props, v, tier in (
         ("rr_msg_ord_m1c", ["C01", "C09"], V2, "thorough"), ("rr_msg_ord_m2", ["C01", "C09"], V3, "thorough"),
         ("rr_msg_unord_m0", ["C02", "C06", "C09"], V2, "quick"), ("rr_msg_unord_m1", ["C02", "C06", "C09"], V2, "quick"),
         ("rr_msg_unord_m1c", ["C02", "C09"], V2, "thorough"), ("rr_msg_unord_m2", ["C02", "C09"], V3, "thorough")):
-    L(nm, props=props, variant=v, tier=tier, functions="ReceiveChannelReliable::process_message",
+    L(nm, props=props, variant=v, tier=tier, timeout=900 if nm.endswith("m2") else 400, functions="ReceiveChannelReliable::process_message",
       claim="one arrival from an arbitrary state: buffered exactly once with its own content unless duplicate/old (then nothing changes) or over budget (error, nothing changes); "
             "cursor unchanged; accounting == recomputed sum <= max; Inv_LF kept",
       bound="occupancy fixed per instance (%s); ids < 2^62, lengths <= 4000, max <= 2^40, all symbolic" % nm.split("_")[-1], **RR)
@@ -135,6 +135,9 @@ for nm, tier in (("rs_pack_small_n1", "thorough"), ("rs_pack_small_n2", "thoroug
       functions="SendChannelReliable::get_packets_to_send (packing of small messages)",
       claim="every queued message is listed exactly once, in order, with its own id and bytes; packets carry consecutive sequences; every packet serializes to <= 1300 B across all varint width classes",
       bound="%s queued small messages, timers None and budget unlimited (concrete), ids/lengths/sequence symbolic; packets read back at concrete indices" % nm[-1], **RR)
+L("rs_size_small_n3", props=["C13"], variant=V3, tier="quick", timeout=1200, mem_gb=20, functions="SendChannelReliable::get_packets_to_send (packing threshold)",
+  claim="with three queued small messages every SmallReliable packet of the tick serializes to <= 1300 bytes (message counts read per packet, sizes attributed in id order)",
+  bound="3 queued messages, lengths 0..=1200, ids < 2^62 (all varint classes), timers None, budget unlimited", **RR)
 for nm, tier in (("rs_gps_sliced_n2", "quick"), ("rs_gps_sliced_n3", "quick")):
     L(nm, props=["C14", "C15"], variant=V2, tier=tier, timeout=600,
       functions="SendChannelReliable::get_packets_to_send (sliced message)",
@@ -197,7 +200,7 @@ for nm, tier in (("ack_add_n0", "quick"), ("ack_add_n1", "quick"), ("ack_add_n2"
       claim="pending acks stay sorted/disjoint/non-adjacent and denote exactly old set + {sequence}: an endpoint never acknowledges a sequence it did not receive",
       bound="list of %s ranges (length fixed per instance), all bounds and the new sequence symbolic < 2^62, witness sequence" % nm[-1], **RC)
 L("ack_cap_64", props=["C13", "C16", "C08"], variant=V2, timeout=900, mem_gb=16, functions="RenetClient::add_pending_ack",
-  claim="with 64 ranges pending, recording any further sequence (below, between or above) keeps at most 64 ranges and keeps the newest", bound="64 single-element ranges spaced by 10 from a symbolic base, new sequence symbolic", **RC)
+  claim="with 64 ranges pending, recording any further sequence (below, between or above) keeps at most 64 ranges and keeps the newest", bound="64 single-element ranges 1000,1010,..,1630 and new sequences 990 / 1005 / 1315 / 1630 / 1700 (concrete: a symbolic insert position into a 64-element Vec exceeds 16 GB)", **RC)
 for nm, tier in (("ack_largest_n1", "quick"), ("ack_largest_n2", "quick"), ("ack_largest_n3", "thorough")):
     L(nm, props=["C08"], variant=V2, tier=tier, timeout=600, functions="RenetClient::acked_largest",
       claim="trimming forgets exactly the sequences <= the largest sequence covered by an acknowledged ack packet", bound="list of %s ranges, all symbolic" % nm[-1], **RC)
@@ -284,7 +287,7 @@ L("cl_witness", props=["C07", "C17", "C18"], expect="fail", functions="-", claim
 
 # --------------------------------------------------------------------------------------------
 # renetcode: tokens (C05, C07, C16, C17)
-TK = dict(crate="renetcode", file="token.rs", variant={"fs": 64}, stubs="chacha20poly1305 primitive -> models/chacha.rs (identity cipher, recorded calls)")
+TK = dict(crate="renetcode", file="token.rs", variant={"fs": 512}, stubs="chacha20poly1305 primitive -> models/chacha.rs (identity cipher, recorded calls)")
 for nm, tier in (("rt_token_priv_k1_v4", "quick"), ("rt_token_priv_k1_v6", "thorough"), ("rt_token_priv_k2_mix", "quick"), ("rt_token_priv_k3_mix", "thorough")):
     L(nm, props=["C16", "C05", "C17"], tier=tier, timeout=900, mem_gb=16, functions="PrivateConnectToken::{encode, decode, write, read}, write_server_addresses, read_server_addresses, crypto::{encrypt,dencrypted}_in_place_xnonce",
       claim="decode(encode(t)) == t; seal and open are bound to (XChaCha, private key, token xnonce, aad = VERSION | protocol id | expire timestamp), so a changed public expiry or protocol id is a different AEAD tuple",
@@ -325,6 +328,14 @@ L("srv_frame_unknown", props=["C07", "C19"], timeout=900, mem_gb=16, functions="
   claim="a datagram <= 64 B from an unknown address gets no answer and changes no counter / table", bound="all datagrams 0..=64 B", **NS)
 L("srv_frame_connected", props=["C07", "C18"], timeout=900, mem_gb=16, functions="NetcodeServer::process_packet_internal",
   claim="a datagram the AEAD rejects, from a connected address, surfaces nothing and does not refresh the timeout or touch the session", bound="all datagrams 0..=64 B, AEAD always rejects", **NS)
-L("srv_surface", props=["C04", "C10"], timeout=900, mem_gb=16, functions="NetcodeServer::process_packet_internal",
-  claim="a genuine payload / disconnect is surfaced on its session, attributed to the id of the slot found by source address, opened with that slot's receive key", bound="2 occupied slots, ideal AEAD", **NS)
+for nm in ("srv_surface_11_k0", "srv_surface_11_k1", "srv_surface_01_k1"):
+    L(nm, props=["C04", "C10"], timeout=900, mem_gb=16, tier="thorough" if nm == "srv_surface_11_k0" else "quick", functions="NetcodeServer::process_packet_internal",
+      claim="a genuine payload / disconnect is surfaced on its session, attributed to the id of the slot found by source address, opened with that slot's receive key; a disconnect frees exactly that slot",
+      bound="2 slots (occupancy and subject slot fixed per instance), ideal AEAD", **NS)
+for nm in ("tok_entry_n1", "tok_entry_n2"):
+    L(nm, props=["C05"], timeout=600, functions="NetcodeServer::find_or_add_connect_token_entry",
+      claim="a token (identified by its MAC) already used from one address is refused from any other address and its binding is never rewritten; a fresh token is recorded with its address",
+      bound="table of 4 entries (NETCODE_MAX_CLIENTS = 2) holding %s entries, MACs and addresses symbolic" % nm[-1], **NS)
+L("srv_req_unauth", props=["C05", "C07", "C19"], timeout=600, mem_gb=16, functions="NetcodeServer::handle_connection_request, PrivateConnectToken::decode",
+  claim="a connection request whose private token does not authenticate is an error, gets no answer and changes no table or counter", bound="all request fields and the 1024 sealed bytes symbolic; AEAD rejects", **NS)
 L("srv_witness", props=["C05", "C10", "C17", "C18", "C19"], expect="fail", functions="-", claim="vacuity witness", **NS)
